@@ -1,4 +1,5 @@
 import ShroudVerif.Model.StrHelpers
+import ShroudVerif.Gen.StrStmts
 /-
 Line protocol for the string-helper model (engine E-strhelpers, property C10).
 A buffer is written as its byte values joined by ',' ("-" for an empty
@@ -23,6 +24,103 @@ def encBufs (bs : List Buf) : String :=
 def showBuf : Res Buf → String
   | .ok b => "ok " ++ encBuf b
   | .oob => "oob"
+
+open Shroud.StrStmts in
+/-- flow name -> (entry, descriptor?, cxx_var is c_var?, kind); mirrors FLOWS in tools/props/c10.py -/
+def flowTable : List (String × Entry × Bool × Bool × String) := [
+  ("char_in_buf", Gen.c_char_ptr_in_buf, false, false, "in"),
+  ("char_out_buf", Gen.c_char_ptr_out_buf, false, true, "out"),
+  ("char_inout_buf", Gen.c_char_ptr_inout_buf, false, false, "inout"),
+  ("char_result_buf", Gen.c_char_ptr_result_buf, false, false, "result"),
+  ("char_scalar_result_buf", Gen.c_char_scalar_result_buf, false, false, "cscalar"),
+  ("string_in_buf", Gen.c_string_ref_in_buf, false, false, "sin"),
+  ("string_ptr_in_buf", Gen.c_string_ptr_in_buf, false, false, "sin"),
+  ("string_scalar_in_buf", Gen.c_string_scalar_in_buf, false, false, "sin"),
+  ("string_out_buf", Gen.c_string_ref_out_buf, false, false, "sout"),
+  ("string_inout_buf", Gen.c_string_ref_inout_buf, false, false, "sinout"),
+  ("string_ptr_inout_buf", Gen.c_string_ptr_inout_buf, false, false, "sinout"),
+  ("string_result_buf", Gen.c_string_scalar_result_buf, false, false, "sresult"),
+  ("char_in_cfi", Gen.c_char_ptr_in_cfi, true, false, "in"),
+  ("char_out_cfi", Gen.c_char_ptr_out_cfi, true, false, "out"),
+  ("char_inout_cfi", Gen.c_char_ptr_inout_cfi, true, false, "inout"),
+  ("char_result_cfi", Gen.c_char_ptr_result_cfi, true, false, "result"),
+  ("char_scalar_result_cfi", Gen.c_char_scalar_result_cfi, true, false, "cscalar"),
+  ("string_in_cfi", Gen.c_string_ref_in_cfi, true, false, "sin"),
+  ("string_scalar_in_cfi", Gen.c_string_scalar_in_cfi, true, false, "sin"),
+  ("string_out_cfi", Gen.c_string_ref_out_cfi, true, false, "sout"),
+  ("string_inout_cfi", Gen.c_string_ref_inout_cfi, true, false, "sinout"),
+  ("string_result_cfi", Gen.c_string_scalar_result_cfi, true, false, "sresult")]
+
+open Shroud.StrStmts in
+def libOf (kind : String) (s : String) : Option Lib :=
+  match kind with
+  | "in" => some .charIn
+  | "out" => some (.charOut (decBuf s))
+  | "inout" => some (.charInout (decBuf s))
+  | "result" => some (.charResult (decPtr s))
+  | "cscalar" => some (.charScalar s.toNat!)
+  | "sin" => some .strIn
+  | "sout" => some (.strOut (decBuf s))
+  | "sinout" => some (.strInout (decBuf s))
+  | "sresult" => some (.strResult (decBuf s))
+  | _ => none
+
+def encOpt : Option (List Nat) → String
+  | none => "none"
+  | some b => encBuf b
+
+open Shroud.StrStmts in
+def showFlow : Res Out → String
+  | .ok o =>
+    if o.live != 0 then "oob" else
+    "ok seen=" ++ (match o.seenArr with
+      | some a => encBufs a
+      | none => encOpt o.seen) ++ " f=" ++ encBuf o.f
+  | .oob => "oob"
+
+open Shroud.StrStmts in
+def handleFlow : List String → String
+  | ["flow", name, t, s] =>
+    match flowTable.find? (fun r => r.1 == name) with
+    | some (_, e, cfi, aliasF, kind) =>
+      match libOf kind s with
+      | some l => showFlow (flow e cfi aliasF (decBuf t) l)
+      | none => "bad-op"
+    | none => "bad-op"
+  | ["aflow", name, s] =>
+    let r : Option (Res Out) :=
+      match name with
+      | "char_result_cfi_allocatable" =>
+        some (flowAlloc Gen.c_char_ptr_result_cfi_allocatable none true (.charResult (decPtr s)))
+      | "string_result_cfi_allocatable" =>
+        some (flowAlloc Gen.c_string_ptr_result_cfi_allocatable none true (.strResult (decBuf s)))
+      | "string_scalar_result_cfi_allocatable" =>
+        some (flowAlloc Gen.c_string_scalar_result_cfi_allocatable none true (.strResult (decBuf s)))
+      | "char_result_buf_allocatable" =>
+        some (flowAlloc Gen.c_char_ptr_result_buf_allocatable (some Gen.f_char_ptr_result_buf_allocatable) false
+          (.charResult (decPtr s)))
+      | "string_result_buf_allocatable" =>
+        some (flowAlloc Gen.c_string_ptr_result_buf_allocatable (some Gen.f_string_ptr_result_buf_allocatable) false
+          (.strResult (decBuf s)))
+      | _ => none
+    match r with
+    | some (.ok o) =>
+      if name.endsWith "cfi_allocatable" && !o.alloc then "ok f=unallocated" else "ok f=" ++ encBuf o.f
+    | some .oob => "oob"
+    | none => "bad-op"
+  | ["vflow", name, t, size, len, outs] =>
+    let v : List (List Nat) := if outs == "~" then [] else (outs.splitOn ";").map decBuf
+    let r : Option (Entry × Lib) :=
+      match name with
+      | "vector_string_in_buf" => some (Gen.c_vector_in_buf_string, .vecIn)
+      | "vector_string_out_buf" => some (Gen.c_vector_out_buf_string, .vecOut v)
+      | "vector_string_inout_buf" => some (Gen.c_vector_inout_buf_string, .vecInout v)
+      | "char_pp_in_buf" => some (Gen.c_char_pp_in_buf, .arrIn)
+      | _ => none
+    match r with
+    | some (e, l) => showFlow (flowArr e false false (decBuf t) size.toNat! len.toNat! l)
+    | none => "bad-op"
+  | _ => "bad-op"
 
 def handle : List String → String
   | ["lentrim", src, nsrc] =>
@@ -59,6 +157,6 @@ def handle : List String → String
   | ["charscalar", dest, len, c] =>
     showBuf (charScalarResult (decBuf dest) len.toNat! c.toNat!)
   | ["ftrim", t] => "ok " ++ encBuf (ftrimCharIn (decBuf t))
-  | _ => "bad-op"
+  | l => handleFlow l
 
 end Driver.StrH
